@@ -12,17 +12,32 @@
 From Coq Require Import ZArith List Bool.
 From CTM Require Import Base.Sx Base.SortX Model.Tree Model.Election Model.RunMapping Proofs.ElectionP Proofs.RunMappingP.
 From CTM Require Import Proofs.TreeValidateP Proofs.TreeDropP.
+From CTM Require Import Model.RunMappingKeys Proofs.RunMappingStrictP Proofs.RunMappingKeysP Proofs.MarkersP.
 From CTM Require Model.Markers.
 Import ListNotations.
 Open Scope Z_scope.
 
-(* Dropping level li (accepted by drop_level: the tree has >= 2 levels and li is a level
+(* WHAT THIS THEOREM IS.  The run with drop_level = li on t and the run without reduction on
+   t' = drop_level t li evaluate, in the model as in _run_mapping, one and the same marker-cache
+   test and one and the same election: `cache_ok t' tb` and `run_type_assignment (mk_decide t'
+   tb) t' cells g` (c17_both_runs_same_election below states this as an equation; it holds by
+   unfolding, because _run_mapping reduces the tree BEFORE anything else looks at it - that the
+   real code does so is the content of the tie, harness/props/c17.py parts (i'), (ii), (iii)).
+   The two runs differ only in (stored tree, level names), which only backfill_assignments
+   consumes.  So what is PROVED here is the backfill relation: how the output of
+   backfill_assignments(stored tree t) on rows keyed by the surviving names relates to the
+   same rows keyed by the names of t' (a single-gap backfill theorem) - not an equivalence of
+   two independently executed mappings.  The table argument `tb` is keyed by the positions of
+   the REDUCED tree in both runs (convention: Model/RunMappingKeys.v, c17_marker_key_convention).
+
+   Dropping level li (accepted by drop_level: the tree has >= 2 levels and li is a level
    other than the leaf level) versus a run, without any reduction, on a reference whose
    taxonomy is drop_level t li:
    - both fail alike (marker cache, election), or
    - the reduced run succeeds with rowsB and generator g', and the dropping run either
-     raises the KeyError of backfill_assignments (excluded by c17_backfilled_path under
-     the validator's guarantees) or succeeds with the same generator state and rows that
+     raises the KeyError of backfill_assignments (this alternative is removed in
+     c17_drop_equals_reduced_strict under the validator's guarantees) or succeeds with the same
+     generator state and rows that
      agree with rowsB at every stored level other than li (stored level k = reduced level
      k below li, k-1 above), while at li the record is the parent, in the STORED tree, of
      the directly assigned record at li+1, with its numbers, flagged inferred
@@ -52,10 +67,16 @@ Theorem c17_drop_equals_reduced :
 Proof. exact drop_equals_reduced. Qed.
 Print Assumptions c17_drop_equals_reduced.
 
-(* Flattening versus a run on the one-level taxonomy of the leaves with the flattened marker
+(* WHAT THIS THEOREM IS: as above - both runs execute the same cache test and the same
+   election, on [leaf_level t] with the flattened table (c17_both_runs_same_election, second
+   part); what is proved is the relation produced by backfill_assignments of the stored tree
+   on a record that holds the leaf level only (a climb through all coarser levels).  Strict
+   form without the KeyError alternative: c17_flatten_equals_one_level_strict.
+
+   Flattening versus a run on the one-level taxonomy of the leaves with the flattened marker
    table (the sorted union of all lists, Markers.flatten_table): the leaf level holds
    exactly the record of the one-level run; every coarser level k holds the parent, in the
-   stored tree, of the record at level k+1 — i.e. the leaf's ancestor — with the leaf's
+   stored tree, of the record at level k+1 - i.e. the leaf's ancestor - with the leaf's
    numbers, flagged inferred, without runner-up fields. *)
 Theorem c17_flatten_equals_one_level :
   forall (cell rng : Type) (cache_ok : tree -> Markers.table -> bool)
@@ -170,6 +191,190 @@ Theorem c17_reduced_tree_parents :
 Proof. exact reduce_drop_ancestors. Qed.
 Print Assumptions c17_reduced_tree_parents.
 
+(* ---------------- what the two theorems above compare, and their strict forms ---------------- *)
+
+(* By construction of the model (the content is in the tie): each pair of runs compared above is
+   run_core - cache test + election + place + backfill - on the SAME reduced tree, table, cells
+   and generator, with a different (stored tree, level names) for the last step only. *)
+Theorem c17_both_runs_same_election :
+  forall (cell rng : Type) (cache_ok : tree -> Markers.table -> bool)
+         (mk_decide : tree -> Markers.table -> rng -> option (nat * node) -> list node -> list cell -> list rec * rng)
+         (t : tree) (tb : Markers.table) (cells : list cell) (g : rng),
+    (forall li t', drop_level t li = TOk t' ->
+       run_mapping_model cell rng cache_ok mk_decide t' {| cfg_drop := None; cfg_flatten := false |} tb cells g
+         = run_core cell rng cache_ok mk_decide t' tb cells g (drop_cells t') (seq 0 (length t')) /\
+       run_mapping_model cell rng cache_ok mk_decide t {| cfg_drop := Some li; cfg_flatten := false |} tb cells g
+         = run_core cell rng cache_ok mk_decide t' tb cells g (drop_cells t) (remove_nth li (seq 0 (length t)))) /\
+    (validate t = true ->
+       run_mapping_model cell rng cache_ok mk_decide [leaf_level t] {| cfg_drop := None; cfg_flatten := false |}
+                         (Markers.flatten_table tb) cells g
+         = run_core cell rng cache_ok mk_decide [leaf_level t] (Markers.flatten_table tb) cells g
+                    (drop_cells [leaf_level t]) [0%nat] /\
+       run_mapping_model cell rng cache_ok mk_decide t {| cfg_drop := None; cfg_flatten := true |} tb cells g
+         = run_core cell rng cache_ok mk_decide [leaf_level t] (Markers.flatten_table tb) cells g
+                    (drop_cells t) [(length t - 1)%nat]).
+Proof.
+  intros cell rng cache_ok mk_decide t tb cells g. split.
+  - intros li t'. exact (both_runs_same_election_drop cell rng cache_ok mk_decide t li t' tb cells g).
+  - exact (both_runs_same_election_flat cell rng cache_ok mk_decide t tb cells g).
+Qed.
+Print Assumptions c17_both_runs_same_election.
+
+(* Strict form of c17_drop_equals_reduced: for a taxonomy meeting tree_ok (C01) that the
+   validator accepts and a decision procedure that answers with children of the parent it is
+   asked about, the dropping run fails exactly like the reduced run or succeeds with the same
+   generator state and the rows of the reduced run completed at level li - no KeyError
+   alternative. *)
+Theorem c17_drop_equals_reduced_strict :
+  forall (cell rng : Type) (cache_ok : tree -> Markers.table -> bool)
+         (mk_decide : tree -> Markers.table -> rng -> option (nat * node) -> list node -> list cell -> list rec * rng),
+    (forall t1 tb1 g p kids cs, (2 <= length kids)%nat ->
+        Forall (fun r => In (asg r) kids) (fst (mk_decide t1 tb1 g p kids cs))) ->
+    forall (t : tree) (li : nat) (t' : tree) (tb : Markers.table) (cells : list cell) (g : rng),
+    tree_ok t -> validate t = true ->
+    drop_level t li = TOk t' ->
+    match run_mapping_model cell rng cache_ok mk_decide t' {| cfg_drop := None; cfg_flatten := false |} tb cells g with
+    | TErr e =>
+        run_mapping_model cell rng cache_ok mk_decide t {| cfg_drop := Some li; cfg_flatten := false |} tb cells g = TErr e
+    | TOk (rowsB, g') =>
+        exists rowsA,
+          run_mapping_model cell rng cache_ok mk_decide t {| cfg_drop := Some li; cfg_flatten := false |} tb cells g
+            = TOk (rowsA, g') /\
+          Forall2 (fun a b =>
+                     (forall k, k <> li -> lookup k a = lookup (if (k <? li)%nat then k else pred k) b) /\
+                     exists fine p,
+                       lookup (S li) a = Some fine /\ o_direct fine = true /\
+                       parent_of (nth li t []) (o_asg fine) = Some p /\
+                       lookup li a = Some (inferred p fine))
+                  rowsA rowsB
+    end.
+Proof. exact drop_equals_reduced_strict. Qed.
+Print Assumptions c17_drop_equals_reduced_strict.
+
+Theorem c17_flatten_equals_one_level_strict :
+  forall (cell rng : Type) (cache_ok : tree -> Markers.table -> bool)
+         (mk_decide : tree -> Markers.table -> rng -> option (nat * node) -> list node -> list cell -> list rec * rng),
+    (forall t1 tb1 g p kids cs, (2 <= length kids)%nat ->
+        Forall (fun r => In (asg r) kids) (fst (mk_decide t1 tb1 g p kids cs))) ->
+    forall (t : tree) (tb : Markers.table) (cells : list cell) (g : rng),
+    tree_ok t -> validate t = true ->
+    match run_mapping_model cell rng cache_ok mk_decide [leaf_level t] {| cfg_drop := None; cfg_flatten := false |}
+                            (Markers.flatten_table tb) cells g with
+    | TErr e =>
+        run_mapping_model cell rng cache_ok mk_decide t {| cfg_drop := None; cfg_flatten := true |} tb cells g = TErr e
+    | TOk (rowsB, g') =>
+        exists rowsA,
+          run_mapping_model cell rng cache_ok mk_decide t {| cfg_drop := None; cfg_flatten := true |} tb cells g
+            = TOk (rowsA, g') /\
+          Forall2 (fun a b =>
+                     lookup (length t - 1) a = lookup 0 b /\
+                     forall k, (S k < length t)%nat -> exists finer p,
+                       lookup (S k) a = Some finer /\
+                       parent_of (nth k t []) (o_asg finer) = Some p /\
+                       lookup k a = Some (inferred p finer))
+                  rowsA rowsB
+    end.
+Proof. exact flatten_equals_one_level_strict. Qed.
+Print Assumptions c17_flatten_equals_one_level_strict.
+
+(* ---------------- the marker table: key convention, entries of removed parents ---------------- *)
+
+(* In the code a key of the marker table is the string 'level_name/node', and drop_level keeps
+   the names of the surviving levels; in the model a level name is a position in the tree that
+   is queried, and run_mapping_model hands its table argument, unchanged, to the marker cache
+   together with the REDUCED tree: that argument is keyed by reduced positions.  rekey m
+   (Model/RunMappingKeys.v) translates the table of the file - keyed by the names of the STORED
+   tree - into that convention; m = the level map of the reduction.  For every accepted
+   reduction:
+   (a) parent (j, x) of the reduced tree finds exactly the entry the file holds under its own
+       name (m[j], x); the root entry is the root entry;
+   (b) the entries of a level that did not survive lie under keys that are NO parents of the
+       reduced tree (validate_marker_lookup iterates the parents of the reduced tree);
+   (c) deleting those entries from the file changes no entry at a parent of the reduced tree.
+   A stored-keyed table passed WITHOUT rekey is an encoding error of the caller of the model
+   (c17_example_stored_keys_need_rekey), not a behaviour of the code: the code's string keys
+   cannot shift (checked on the real validate_marker_lookup after the real drop_level, names
+   'class/A', 'subclass/a1': harness/props/c17.py pipeline part runs exactly this). *)
+Theorem c17_marker_key_convention :
+  forall (t : tree) (c : cfg) (t' : tree) (m : list nat) (tb : Markers.table),
+    validate t = true -> wf t -> reduce t c = TOk (t', m) ->
+    (forall j x, In (Some (j, x)) (all_parents t') ->
+       Markers.tget (Some (j, x)) (rekey m tb) = Markers.tget (Some (nth j m 0%nat, x)) tb) /\
+    Markers.tget None (rekey m tb) = Markers.tget None tb /\
+    (forall s x, ~ In s m -> ~ In (rekey_key m (Some (s, x))) (all_parents t')) /\
+    (forall k, In k (all_parents t') ->
+       Markers.tget k (rekey m tb) = Markers.tget k (rekey m (filter (surviving m) tb))).
+Proof. exact rekey_convention. Qed.
+Print Assumptions c17_marker_key_convention.
+
+(* "marker groups of removed parents are never consulted": two tables that agree at the parents
+   of the tree u handed to the marker reconciliation - they may differ arbitrarily under keys
+   that are no parents of u, which is where (b) puts the entries of removed parents - give
+   every parent of u with >= 2 children the same markers: what assemble_query_data reads from
+   either cache (Markers.used) is a duplicate-free list of one and the same set of genes, the
+   set spec_markers (C08) of either table.  (Both caches are assumed to be created: an entry of
+   a removed parent can still make the creation FAIL - a gene unknown to the reference is
+   refused wherever it is listed, C08 c08_errors_unknown_to_reference - but then it fails in
+   the dropping run and in the run on the reduced reference alike, since both are handed the
+   same file.) *)
+Theorem c17_removed_entries_not_consulted :
+  forall (u : tree) (tb1 tb2 : Markers.table) (refg qg : list Markers.gene) (minm : nat)
+         (c1 c2 : Markers.cache) (p : Markers.pkey),
+    dict_ok u ->
+    (forall k, In k (all_parents u) -> Markers.tget k tb1 = Markers.tget k tb2) ->
+    Markers.create_cache tb1 refg qg (Some u) minm = Markers.MOk c1 ->
+    Markers.create_cache tb2 refg qg (Some u) minm = Markers.MOk c2 ->
+    In p (all_parents u) -> (2 <= length (children u p))%nat ->
+    exists names1 names2,
+      Markers.used c1 refg qg p = Some (names1, names1) /\
+      Markers.used c2 refg qg p = Some (names2, names2) /\
+      NoDup names1 /\ NoDup names2 /\
+      (forall g, In g names1 <-> In g names2) /\
+      (forall g, In g names1 <-> In g (Markers.spec_markers tb1 qg minm u p)).
+Proof. exact entries_elsewhere_not_consulted. Qed.
+Print Assumptions c17_removed_entries_not_consulted.
+
+(* the strict drop theorem for the table AS THE FILE HOLDS IT (keyed by the names of the stored
+   tree; run_mapping_named = run_mapping_model after rekey): the reference that never had the
+   level holds the same entries under the names of its own tree, i.e. rekey m of the file *)
+Theorem c17_drop_equals_reduced_named :
+  forall (cell rng : Type) (cache_ok : tree -> Markers.table -> bool)
+         (mk_decide : tree -> Markers.table -> rng -> option (nat * node) -> list node -> list cell -> list rec * rng),
+    (forall t1 tb1 g p kids cs, (2 <= length kids)%nat ->
+        Forall (fun r => In (asg r) kids) (fst (mk_decide t1 tb1 g p kids cs))) ->
+    forall (t : tree) (li : nat) (t' : tree) (tb : Markers.table) (cells : list cell) (g : rng),
+    tree_ok t -> validate t = true ->
+    drop_level t li = TOk t' ->
+    match run_mapping_model cell rng cache_ok mk_decide t' {| cfg_drop := None; cfg_flatten := false |}
+                            (rekey (remove_nth li (seq 0 (length t))) tb) cells g with
+    | TErr e =>
+        run_mapping_named cell rng cache_ok mk_decide t {| cfg_drop := Some li; cfg_flatten := false |} tb cells g = TErr e
+    | TOk (rowsB, g') =>
+        exists rowsA,
+          run_mapping_named cell rng cache_ok mk_decide t {| cfg_drop := Some li; cfg_flatten := false |} tb cells g
+            = TOk (rowsA, g') /\
+          Forall2 (fun a b =>
+                     (forall k, k <> li -> lookup k a = lookup (if (k <? li)%nat then k else pred k) b) /\
+                     exists fine p,
+                       lookup (S li) a = Some fine /\ o_direct fine = true /\
+                       parent_of (nth li t []) (o_asg fine) = Some p /\
+                       lookup li a = Some (inferred p fine))
+                  rowsA rowsB
+    end.
+Proof. exact drop_equals_reduced_named. Qed.
+Print Assumptions c17_drop_equals_reduced_named.
+
+(* with flatten the keys play no part: the flattened table has the root key only *)
+Theorem c17_flatten_ignores_keys :
+  forall (cell rng : Type) (cache_ok : tree -> Markers.table -> bool)
+         (mk_decide : tree -> Markers.table -> rng -> option (nat * node) -> list node -> list cell -> list rec * rng)
+         (t : tree) (tb : Markers.table) (cells : list cell) (g : rng),
+    validate t = true ->
+    run_mapping_named cell rng cache_ok mk_decide t {| cfg_drop := None; cfg_flatten := true |} tb cells g =
+    run_mapping_model cell rng cache_ok mk_decide t {| cfg_drop := None; cfg_flatten := true |} tb cells g.
+Proof. exact flatten_named_is_model. Qed.
+Print Assumptions c17_flatten_ignores_keys.
+
 (* ---------------- non-vacuity: a 4-level taxonomy with a single top node, a single-child
    chain (10 -> 100) and a single-child parent (110 -> 1100) ---------------- *)
 Definition ex_tree : tree :=
@@ -267,3 +472,84 @@ Example c17_example_reduced_parents :
   | TErr _ => False
   end.
 Proof. split; [apply tree_ok_wf; apply tree_ok_b; vm_compute; reflexivity | vm_compute; split; reflexivity]. Qed.
+
+(* ---------------- the key convention on the example: level 1 of ex_tree dropped ---------------- *)
+(* the file's table, keyed by the names (positions) of the STORED tree: root, (0,1), the removed
+   parent (1,11), and the level-2 parents 100 and 111 *)
+Definition ex_file : Markers.table :=
+  [(None, [5; 3]); (Some (0%nat, 1), [3; 7]); (Some (1%nat, 11), [7; 8]);
+   (Some (2%nat, 100), [5]); (Some (2%nat, 111), [3; 8])].
+Definition ex_m : list nat := [0; 2; 3]%nat.
+Definition ex_refg : list Markers.gene := [3; 5; 7; 8; 9].
+Definition ex_qg : list Markers.gene := [9; 8; 7; 5; 3].
+
+(* rekey: level 2 becomes level 1, the removed level 1 goes to index 3 + 1 = 4 (no level of the
+   3-level reduced tree); deleting the removed entry first changes nothing at any other key *)
+Example c17_example_rekey :
+  rekey ex_m ex_file =
+    [(None, [5; 3]); (Some (0%nat, 1), [3; 7]); (Some (4%nat, 11), [7; 8]);
+     (Some (1%nat, 100), [5]); (Some (1%nat, 111), [3; 8])] /\
+  rekey ex_m (filter (surviving ex_m) ex_file) =
+    [(None, [5; 3]); (Some (0%nat, 1), [3; 7]); (Some (1%nat, 100), [5]); (Some (1%nat, 111), [3; 8])] /\
+  option_map snd (match reduce ex_tree {| cfg_drop := Some 1%nat; cfg_flatten := false |} with TOk r => Some r | TErr _ => None end)
+    = Some ex_m.
+Proof. vm_compute. repeat split; reflexivity. Qed.
+
+(* the audit's observation, as what it is: the file's table handed to the model WITHOUT rekey is
+   read under the wrong names - parent (1,111) of the reduced tree (stored name (2,111)) is
+   missing and (1,11) is not a node of reduced level 1 - whereas after rekey it finds [3; 8] *)
+Example c17_example_stored_keys_need_rekey :
+  Markers.tget (Some (1%nat, 111)) ex_file = None /\
+  Markers.tget (Some (1%nat, 111)) (rekey ex_m ex_file) = Some [3; 8] /\
+  Markers.tget (Some (2%nat, 111)) ex_file = Some [3; 8].
+Proof. vm_compute. repeat split; reflexivity. Qed.
+
+(* the hypotheses of c17_removed_entries_not_consulted hold of the reduced example tree and the
+   two translated tables (with and without the entry of the removed parent 11), both caches are
+   created, and with min_markers = 2 the parent (1,100) - one usable gene of its own - borrows from
+   its ancestor IN THE REDUCED TREE, the top node (0,1): the genes 3 and 7, never the genes of the
+   removed parent's ancestor line (8 is not borrowed) *)
+Example c17_example_removed_entries :
+  match drop_level ex_tree 1 with
+  | TOk u =>
+      dict_ok u /\
+      (forall k, In k (all_parents u) ->
+         Markers.tget k (rekey ex_m ex_file) = Markers.tget k (rekey ex_m (filter (surviving ex_m) ex_file))) /\
+      In (Some (1%nat, 100)) (all_parents u) /\ (2 <= length (children u (Some (1%nat, 100%Z))))%nat /\
+      match Markers.create_cache (rekey ex_m ex_file) ex_refg ex_qg (Some u) 2,
+            Markers.create_cache (rekey ex_m (filter (surviving ex_m) ex_file)) ex_refg ex_qg (Some u) 2 with
+      | Markers.MOk c1, Markers.MOk c2 =>
+          Markers.used c1 ex_refg ex_qg (Some (1%nat, 100)) = Some ([3; 5; 7], [3; 5; 7]) /\
+          Markers.used c2 ex_refg ex_qg (Some (1%nat, 100)) = Some ([3; 5; 7], [3; 5; 7]) /\
+          Markers.used c1 ex_refg ex_qg (Some (1%nat, 111)) = Some ([3; 8], [3; 8]) /\
+          Markers.used c2 ex_refg ex_qg (Some (1%nat, 111)) = Some ([3; 8], [3; 8])
+      | _, _ => False
+      end
+  | TErr _ => False
+  end.
+Proof.
+  vm_compute. split; [|split; [|split; [|split; [|repeat split; reflexivity]]]].
+  - repeat constructor; cbn; intuition discriminate.
+  - intros k Hk. repeat (destruct Hk as [<- | Hk]; [reflexivity|]). destruct Hk.
+  - right; right; left. reflexivity.
+  - apply le_n.
+Qed.
+
+(* the named run on the example: the dropping run with the FILE's table equals, level by level,
+   the run on the reduced reference with the translated table *)
+Example c17_example_named_run :
+  match drop_level ex_tree 1 with
+  | TOk t' =>
+      match run_mapping_model Z nat (fun _ _ => true) ex_decide t' {| cfg_drop := None; cfg_flatten := false |}
+                              (rekey ex_m ex_file) [5; 6; 7] 0%nat,
+            run_mapping_named Z nat (fun _ _ => true) ex_decide ex_tree {| cfg_drop := Some 1%nat; cfg_flatten := false |}
+                              ex_file [5; 6; 7] 0%nat with
+      | TOk (rowsB, gB), TOk (rowsA, gA) =>
+          gA = gB /\
+          map (fun a => map (fun k => option_map o_asg (lookup k a)) [0; 2; 3]%nat) rowsA
+            = map (fun b => map (fun k => option_map o_asg (lookup k b)) [0; 1; 2]%nat) rowsB
+      | _, _ => False
+      end
+  | TErr _ => False
+  end.
+Proof. vm_compute. split; reflexivity. Qed.
